@@ -121,6 +121,11 @@ fn gen_inputs(dir: &Path) -> Vec<Input> {
     m.thread_names = vec![(1, "main \"thread\"".into()), (2, "worker\u{1}".into())];
     m.modules = vec![procgen::app_module()];
     add("macos-arm64", procgen::build(&m));
+    // modules (loaded and unloaded) whose last byte is the last byte of the address space, and one byte short of it
+    for k in 0..procgen::gen_edge_modules(Tier::Quick).len {
+        let g = procgen::gen_edge_modules(Tier::Quick);
+        add(&format!("module-at-the-top-of-the-address-space-{k}"), procgen::build(&(g.model)(k)));
+    }
     v
 }
 
